@@ -50,6 +50,9 @@ K_DOLLAR = "text-mismatch:first-token-after@dollar"
 # (a) source level
 # ===========================================================================
 
+_CHARNAME = {"@": "at", "|": "bar", "!": "bang", "~": "tilde", "%": "percent"}
+
+
 def _strip(s):
     return "".join(s.split())
 
@@ -89,13 +92,13 @@ def check_source(case):
                     {"source": src, "expected": expected, "observed": text, "segment": idx,
                      "segment_expected": want, "observed_there": got}, sorted(feats))
     if obs["depth"] != 1 or obs["depth_attr"] != 1:
-        return fail("stack-unbalanced:" + ",".join(obs["names"]),
+        return fail("stack-unbalanced:" + "+".join("group" if n == "{}" else n for n in obs["names"][:6]),
                     {"source": src, "depth": obs["depth"], "depth_attr": obs["depth_attr"],
                      "frames_left": obs["names"]}, sorted(feats))
     if not m.wrap:
         for c in sm.CHARS:
             if obs["codes"][c] != m.cat[c]:
-                return fail("final-catcode:%s" % c,
+                return fail("final-catcode:%s" % _CHARNAME[c],
                             {"source": src, "char": c, "expected": m.cat[c], "observed": obs["codes"][c]},
                             sorted(feats))
     return ok(sorted(feats), m.nontrivial)
